@@ -10,21 +10,175 @@ Decided here (the I/O round trip itself is not decided; this is writer / reader 
   C16-R3  label / line correspondence: analyse_formulae stores result i under `formula-<i>` with i the enumerate
           counter of the loop that evaluates tree i (no arithmetic), trees are pushed in the order of the input
           formulae, nothing reorders either list, and the formula list archived is the input list."""
+import effects
 import evalnode as E
+import norm
+import partial
+import render
 import semantics as sem
 import terms
-from terms import subterms, pt, place_path
+from norm import last
+from terms import subterms, pt
 
 LEVEL = "other"
-REORDER = ("sort", "sort_by", "sort_by_key", "sort_unstable", "sort_unstable_by", "sort_unstable_by_key", "reverse", "dedup", "swap", "retain",
-           "rotate_left", "rotate_right", "swap_remove", "truncate", "drain", "dedup_by_key", "sort_by_cached_key")
+STRINGY = render.STRINGY_CALLS + ("as_os_str", "to_path_buf", "as_path")
+ARCHIVE_OPS = ("start_file", "start_file_aligned", "start_file_from_path", "add_directory", "raw_copy_file", "finish")
 
 
-def fmt_template(t):
-    for x in [t] + list(subterms(t)):
-        if x[0] == "fmt":
-            return tuple(p if isinstance(p, str) else "{}" for p in x[1]), [p[1] for p in x[1] if isinstance(p, tuple)]
-    return None, []
+def strip_str(t):
+    while isinstance(t, tuple) and t and t[0] == "call" and isinstance(t[1], str) and last(t[1]) in STRINGY and len(t[2]) == 1:
+        t = t[2][0]
+    return t
+
+
+def is_write(name):
+    return name.startswith("write") or name in ARCHIVE_OPS
+
+
+def archive_trace(prog, f, eng):
+    """Operations applied to the zip writer of `f`, in order (from the receiver of `finish`)."""
+    s = eng.summary(f)
+    fin = [x for x in s.all_sites() if x.kind == "mcall" and x.name == "finish"]
+    if len(fin) != 1:
+        return None, s
+    items = effects.trace(fin[0].args[0], s)
+    out = []
+    for it in items:
+        if it[0] == "op" and is_write(it[1]):
+            out.append(it)
+        elif it[0] == "loop":
+            inner = [x for x in it[3] if (x[0] == "op" and is_write(x[1])) or x[0] != "op"]
+            if inner:
+                out.append(("loop", it[1], it[2], inner))
+        elif it[0] in ("cond", "opaque"):
+            out.append(it)
+    return out, s
+
+
+def source_root(t):
+    t = terms.strip_iter_adapters(t) if t is not None else None
+    while isinstance(t, tuple) and t and t[0] == "call" and isinstance(t[1], str) and last(t[1]) in ("iter", "into_iter", "keys", "values", "clone", "enumerate") and len(t[2]) == 1:
+        t = t[2][0]
+    return t
+
+
+def comp(t, i):
+    """t is component i of a loop element: returns the elem term."""
+    t = strip_str(t)
+    if t[0] in ("tproj", "field") and str(t[2]) == str(i) and t[1][0] == "elem":
+        return t[1]
+    return None
+
+
+def check_writer(rep, prog, f, eng, with_results):
+    pn = f.param_names()
+    where = f"{f.file}:{f.line}"
+    tr, s = archive_trace(prog, f, eng)
+    if tr is None:
+        rep.unresolved("C16-R2", f"{f.name}/trace", where, "the archive writer's `finish` call was not found")
+        return None
+    suffix = None
+    items = list(tr)
+    # optional leading loop over the results
+    res_param = ("param", pn[0]) if with_results else None
+    if items and items[0][0] == "loop":
+        lp = items.pop(0)
+        src = source_root(lp[2])
+        if src is not None and terms.is_fresh_collection(src):
+            pass        # a loop over an empty collection writes nothing
+        else:
+            ops = lp[3]
+            good = with_results and src == res_param and len(ops) == 2 and ops[0][0] == "op" and ops[0][1] == "start_file" and ops[1][0] == "op" and ops[1][1] == "write_as_string"
+            why = f"the result loop performs {[o[1] if o[0] == 'op' else o[0] for o in ops]} over {sem.short(src, 40)}"
+            if good:
+                pieces = render.string_pieces(ops[0][2][0])
+                e0 = comp(pieces[0][1], 0) if len(pieces) == 2 and isinstance(pieces[0], tuple) else None
+                good = e0 is not None and isinstance(pieces[1], str) and pieces[1].startswith(".") and source_root(e0[1]) == res_param
+                why = f"entry name is {render.shape(pieces)} over {[sem.short(p[1], 40) for p in pieces if isinstance(p, tuple)]}"
+                if good:
+                    suffix = pieces[1]
+                    ser = ops[1][2][0] if ops[1][2] else None
+                    v = ser[2][0] if ser is not None and ser[0] == "call" and last(ser[1]) == "as_bdd" and len(ser[2]) == 1 else None
+                    good = v is not None and comp(v, 1) == e0
+                    why = f"the set written under a label is {sem.short(ser, 80)}, not that label's set"
+            rep.check(good, "C16-R1", "writer/entry", where, f"each result is written as `<label>{suffix}` with write_as_string of that label's set", why)
+    elif with_results:
+        rep.violation("C16-R1", "writer/entry", where, "the archive writer does not start with a loop writing one entry per result")
+    # fixed entries
+    names = []
+    good = True
+    why = ""
+    i = 0
+    expect = [("start_file", "model.aeon"), ("write", pn[-2]), ("start_file", "formulae.txt"), ("loop", pn[-1]), ("finish", None)]
+    got = []
+    for it in items:
+        if it[0] == "op" and it[1] == "start_file":
+            a = strip_str(it[2][0])
+            got.append(("start_file", a[1] if a[0] == "lit" else sem.short(a, 30)))
+        elif it[0] == "op" and it[1] in ("write_fmt", "write_all", "write_str", "write"):
+            pieces = render.string_pieces(it[2][0])
+            if len(pieces) == 1 and isinstance(pieces[0], tuple) and strip_str(pieces[0][1])[0] == "param":
+                got.append(("write", strip_str(pieces[0][1])[1]))
+            else:
+                got.append(("write", render.shape(pieces)))
+        elif it[0] == "loop":
+            src = source_root(it[2])
+            ops = it[3]
+            ok_line = False
+            if len(ops) == 1 and ops[0][0] == "op" and ops[0][1] in ("write_fmt", "write_all", "write_str"):
+                pieces = render.string_pieces(ops[0][2][0])
+                ok_line = (len(pieces) == 2 and isinstance(pieces[0], tuple) and pieces[1] == "\n" and strip_str(pieces[0][1])[0] == "elem"
+                           and source_root(strip_str(pieces[0][1])[1]) == src)
+            got.append(("loop", src[1] if src is not None and src[0] == "param" and ok_line else f"?{sem.short(src, 30)}:{[o[1] if o[0] == 'op' else o[0] for o in ops]}"))
+        elif it[0] == "op" and it[1] == "finish":
+            got.append(("finish", None))
+        else:
+            got.append((it[0], it[1] if it[0] == "op" else None))
+    if got and got[-1] != ("finish", None):
+        got.append(("finish", None))        # the trace is the receiver of finish
+    rep.check(got == expect, "C16-R2", f"{f.name}/fixed-entries", where, "then model.aeon (the model text), formulae.txt (one formula per line, in the order given)",
+              f"after the results the archive receives {got}; expected {expect}")
+    return suffix
+
+
+def ext_value(cond, value):
+    """Truth value of a condition when `Path::extension()` of the entry is `value` (None = no extension)."""
+    ext = ("ctor", norm.SOME, (("lit", value),)) if value is not None else ("ctor", "std::prelude::v1::None", ())
+
+    def model(t):
+        if not isinstance(t, tuple) or not t:
+            return t
+        if t[0] == "call" and isinstance(t[1], str) and last(t[1]) == "extension":
+            return ext
+        r = tuple(model(x) if isinstance(x, tuple) else x for x in t)
+        if r[0] == "call" and isinstance(r[1], str) and last(r[1]) in ("to_str", "to_string_lossy", "to_os_string", "as_os_str", "to_string", "as_ref", "new") and len(r[2]) == 1 \
+                and r[2][0][0] == "lit":
+            return ("ctor", norm.SOME, (r[2][0],)) if last(r[1]) == "to_str" else r[2][0]
+        if r[0] == "bin" and r[1] in ("==", "!=") and concrete(r[2]) and concrete(r[3]):
+            return ("lit", same(r[2], r[3]) == (r[1] == "=="))
+        return r
+
+    def concrete(t):
+        return t[0] == "lit" or (t[0] == "ctor" and all(concrete(x) for x in t[2]))
+
+    def same(a, b):
+        if a[0] != b[0]:
+            return False
+        if a[0] == "lit":
+            return a[1] == b[1]
+        return last(a[1]) == last(b[1]) and len(a[2]) == len(b[2]) and all(same(x, y) for x, y in zip(a[2], b[2]))
+    nz = norm.Normalizer()
+    t = cond
+    for _ in range(4):
+        t2 = nz(partial.simplify(model(nz(partial.simplify(model(t))))))
+        if t2 == t:
+            break
+        t = t2
+    if t == ("lit", True):
+        return True
+    if t == ("lit", False):
+        return False
+    return None
 
 
 def run(prog, rep):
@@ -33,152 +187,121 @@ def run(prog, rep):
     rep.rule("C16-R1", "writer's entry name / serialiser == reader's filter / suffix / parser")
     rep.rule("C16-R2", "model.aeon and formulae.txt written once each, formulae in order")
     rep.rule("C16-R3", "result i is archived under formula-<i>; nothing is reordered")
-    eng = terms.Engine(prog, inline=False)
     w = prog.lib_fn("generate_output::build_result_archive")
+    wi = prog.lib_fn("generate_output::build_initial_archive")
     r = prog.lib_fn("load_inputs::load_bdd_bundle")
-    if w is None or r is None:
+    if w is None or r is None or wi is None:
         rep.unresolved("C16-R1", "functions", "", "archive writer / reader not found")
         return
-    rep.functions.add(w.qual)
-    rep.functions.add(r.qual)
-    ws, rs = eng.summary(w), eng.summary(r)
-    wpn, rpn = w.param_names(), r.param_names()
-    # writer: start_file(fmt"{name}.bdd") inside the loop over results, write_as_string of that set
-    fors = [x for x in ws.sites if x.kind == "for"]
-    res_for = [x for x in fors if any(y == ("param", wpn[0]) for y in [x.args[0]] + list(subterms(x.args[0])))]
-    starts = [x for x in ws.sites if x.kind == "mcall" and x.name == "start_file"]
-    suffix = None
-    good = len(res_for) == 1
-    why = "no loop over the results"
-    if good:
-        lid = res_for[0].node["id"]
-        elem = ("elem", res_for[0].args[0])
-        inner = [x for x in starts if lid in x.loops]
-        sers = [x for x in ws.sites if x.kind == "mcall" and lid in x.loops and x.name in ("write_as_string", "write_as_bytes", "write_as_dot")]
-        good = len(inner) == 1 and len(sers) == 1
-        why = f"{len(inner)} start_file and {len(sers)} serialiser calls in the result loop"
-        if good:
-            tmpl, args = fmt_template(inner[0].args[1])
-            good = tmpl is not None and len(tmpl) == 2 and tmpl[0] == "{}" and tmpl[1].startswith(".") and args == [("tproj", elem, 0)]
-            why = f"entry name template is {tmpl} over {[sem.short(a, 40) for a in args]}"
-            if good:
-                suffix = tmpl[1]
-                good = sers[0].name == "write_as_string" and any(y == ("tproj", elem, 1) for y in subterms(sers[0].args[0]))
-                why = f"serialiser is {sers[0].name} on {sem.short(sers[0].args[0], 80)}"
-    rep.check(good, "C16-R1", "writer/entry", f"{w.file}:{w.line}", f"writes `<label>{suffix}` with write_as_string of that label's set", why)
-    # reader
-    strips = [x for x in rs.sites if x.kind == "mcall" and x.name in ("strip_suffix", "trim_end_matches", "trim_end", "trim_matches", "replace", "rsplit", "split", "strip_prefix", "trim_start_matches")]
-    fors_r = [x for x in rs.sites if x.kind == "for"]
-    good = len(strips) == 1 and strips[0].name == "strip_suffix" and suffix is not None and strips[0].args[1] == ("lit", suffix) and len(fors_r) == 1
-    why = f"label recovered with {[x.name + '(' + sem.short(x.args[1], 20) + ')' for x in strips]}; writer's suffix is {suffix!r}"
-    if good:
-        fname = ("elem", fors_r[0].args[0])
-        good = strips[0].args[0] == fname or any(y == fname for y in subterms(strips[0].args[0]))
-        why = "the suffix is not stripped from the entry name"
-    rep.check(good, "C16-R1", "reader/label", strips[0].where() if strips else f"{r.file}:{r.line}", "label = entry name with the writer's suffix stripped once", why)
-    ext_ok = False
-    for x in rs.sites:
-        if x.kind == "continue":
-            for c in x.pc:
-                if c[0] == "if" and c[2] and c[1][0] == "not" and c[1][1][0] == "matches":
-                    d = c[1][1][2]
-                    if d[0] == "var" and str(d[1]).endswith("Some") and d[2] and d[2][0] == ("lit", (suffix or ".").lstrip(".")) and "extension" in pt(c[1][1][1]):
-                        ext_ok = True
-    rep.check(ext_ok, "C16-R1", "reader/filter", f"{r.file}:{r.line}", "entries are skipped iff their extension is not the writer's",
-              "the reader's extension filter does not correspond to the writer's suffix")
-    parse = [x for x in rs.sites if x.kind == "call" and x.is_call_to("from_string", "from_bytes", "read_as_string", "read_as_bytes")]
-    wraps = [x for x in rs.sites if x.kind == "call" and str(x.callee).endswith("::new") and "GraphColoredVertices" in str(x.callee)]
-    ins = [x for x in rs.sites if x.kind == "mcall" and x.name == "insert"]
-    good = len(parse) == 1 and parse[0].short() == "from_string" and len(wraps) == 1 and wraps[0].args[0] == parse[0].term and wraps[0].args[1] == ("param", rpn[1]) \
-        and len(ins) == 1 and ins[0].args[2] == wraps[0].term and strips and any(y == strips[0].term for y in subterms(ins[0].args[1]))
-    rep.check(good, "C16-R1", "reader/parse", f"{r.file}:{r.line}", "Bdd::from_string of the entry, wrapped with the caller's context, stored under the label",
-              f"parser={[x.short() for x in parse]}, wrapped with caller's context={bool(wraps) and wraps[0].args[1] == ('param', rpn[1])}, keyed by the stripped label={bool(ins)}")
-    rd = [x for x in rs.sites if x.kind == "call" and x.is_call_to("read_zipped_file")]
-    rep.check(len(rd) == 1 and fors_r and rd[0].args[1] == ("elem", fors_r[0].args[0]) and parse and any(y == rd[0].term for y in subterms(parse[0].args[0])),
-              "C16-R1", "reader/content", f"{r.file}:{r.line}", "the parsed text is the content of that entry", "the parsed text is not the content of the entry being loaded")
-    rep.floor("C16-R1", 5)
-    # R2
-    for f in (w, prog.lib_fn("generate_output::build_initial_archive")):
-        if f is None:
-            rep.unresolved("C16-R2", "build_initial_archive", "", "function not found")
-            continue
+    for f in (w, wi, r):
         rep.functions.add(f.qual)
-        s = eng.summary(f)
-        pn = f.param_names()
-        st = [x for x in s.sites if x.kind == "mcall" and x.name == "start_file" and not x.loops]
-        names = [x.args[1][1] if x.args[1][0] == "lit" else None for x in st]
-        good = names == ["model.aeon", "formulae.txt"]
-        why = f"fixed entries {names}"
-        fl = [x for x in s.sites if x.kind == "for" and x.args[0] == ("param", pn[-1])]
-        if good:
-            good = len(fl) == 1
-            why = "formulae are not written by one loop over the given list"
-        if good:
-            lid = fl[0].node["id"]
-            wr = [x for x in s.sites if x.kind == "mcall" and x.name == "write_fmt" and lid in x.loops]
-            tm, args = fmt_template(wr[0].args[1]) if wr else (None, [])
-            good = len(wr) == 1 and tm == ("{}", "\n") and args == [("elem", fl[0].args[0])]
-            why = f"line template {tm}"
-        if good and f is w:
-            res_loops = [x for x in s.sites if x.kind == "for" and x.args[0] != ("param", pn[-1])]
-            good = all(x.line() < st[0].line() for x in res_loops)
-            why = "fixed entries are not written after the results"
-        model = [x for x in s.sites if x.kind == "mcall" and x.name == "write_fmt" and not x.loops]
-        if good:
-            tm, args = fmt_template(model[0].args[1]) if model else (None, [])
-            good = len(model) == 1 and tm == ("{}",) and args == [("param", pn[-2])]
-            why = "model.aeon does not receive exactly the model string"
-        rep.check(good, "C16-R2", f"{f.name}/fixed-entries", f"{f.file}:{f.line}", "model.aeon then formulae.txt, one formula per line in order", why)
+    weng = terms.Engine(prog, inline=True, hooks=E.Hooks(["generate_output::"]))
+    suffix = check_writer(rep, prog, w, weng, True)
+    check_writer(rep, prog, wi, weng, False)
     rep.floor("C16-R2", 2)
-    # R3
+    # ---- reader
+    reng = terms.Engine(prog, inline=True, hooks=E.Hooks(["load_inputs::"], opaque_names=["load_inputs::read_zipped_file"]))
+    rs = reng.summary(r)
+    rpn = r.param_names()
+    where = f"{r.file}:{r.line}"
+    ins = [x for x in rs.all_sites() if x.kind == "mcall" and x.name == "insert" and len(x.args) == 3]
+    if len(ins) != 1:
+        rep.unresolved("C16-R1", "reader/insert", where, f"{len(ins)} insertions into the loaded map")
+        return
+    st = ins[0]
+    key = strip_str(st.args[1])
+    name = None
+    good = key[0] == "proj" and last(key[2]) == "Some" and key[1][0] == "call" and last(key[1][1]) == "strip_suffix" and len(key[1][2]) == 2
+    why = f"the label is {sem.short(key, 120)}"
+    if good:
+        name = strip_str(key[1][2][0])
+        sfx = key[1][2][1]
+        good = name[0] == "elem" and sfx[0] == "lit" and suffix is not None and sfx[1] == suffix
+        why = f"the reader strips {sem.short(sfx, 20)} from {sem.short(name, 60)}; the writer appends {suffix!r} to the label"
+    rep.check(good, "C16-R1", "reader/label", st.where(), "label = entry name with the writer's suffix stripped once", why)
+    # filter
+    conds = [(t, pol) for t, pol in __import__("q").conds(st.pc) if any(y[0] == "call" and isinstance(y[1], str) and last(y[1]) == "extension" for y in [t] + list(subterms(t)))]
+    want = (suffix or ".bdd").lstrip(".")
+    verdicts = {}
+    for v in (want, "txt", want.upper(), None):
+        vals = [(ext_value(t, v), pol) for t, pol in conds]
+        verdicts[v] = None if any(x is None for x, _ in vals) else all(x == pol for x, pol in vals)
+    ext_ok = bool(conds) and verdicts[want] is True and verdicts["txt"] is False and verdicts[None] is False and verdicts[want.upper()] is False
+    if conds and any(v is None for v in verdicts.values()):
+        rep.unresolved("C16-R1", "reader/filter", where, f"the extension filter could not be evaluated: {[sem.short(t, 80) for t, _ in conds]}")
+    else:
+        rep.check(ext_ok, "C16-R1", "reader/filter", where, f"an entry is loaded iff its extension is `{want}`",
+                  f"an entry is loaded under extension {[k for k, v in verdicts.items() if v]}; the writer's entries have extension `{want}`")
+    val = st.args[2]
+    good = val[0] == "call" and last(val[1]) == "new" and "GraphColoredVertices" in val[1] and len(val[2]) == 2 and val[2][1] == ("param", rpn[1])
+    why = f"the stored set is {sem.short(val, 100)}"
+    if good:
+        b = val[2][0]
+        good = b[0] == "call" and last(b[1]) == "from_string" and "Bdd" in b[1]
+        why = f"the BDD is parsed with {last(b[1]) if b[0] == 'call' else sem.short(b, 40)}; the writer uses write_as_string"
+        if good:
+            src = strip_str(b[2][0])
+            good = (src[0] == "proj" and last(src[2]) == "Ok" and src[1][0] in ("call", "rec") and last(src[1][1]) == "read_zipped_file"
+                    and name is not None and strip_str(src[1][2][1]) == name)
+            why = "the parsed text is not the content of the entry whose name gives the label"
+    rep.check(good, "C16-R1", "reader/parse", st.where(), "Bdd::from_string of that entry's content, wrapped with the caller's context, stored under the label", why)
+    rep.floor("C16-R1", 4)
+    # ---- R3
     an = prog.lib_fn("analysis::analyse_formulae")
     if an is None:
         rep.unresolved("C16-R3", "analyse_formulae", "", "function not found")
         return
     rep.functions.add(an.qual)
-    s = eng.summary(an)
+    s = terms.Engine(prog, inline=True, hooks=E.Hooks(["analysis::"])).summary(an)
     pn = an.param_names()
     formulae = ("param", pn[1])
-    for x in s.sites:
-        if x.kind == "mcall" and x.name in REORDER:
-            rep.violation("C16-R3", f"analyse_formulae/{x.name}@{x.ordinal}", x.where(), f"`{x.name}` reorders a list between parsing and archiving: entry i no longer corresponds to line i")
-    evs = [x for x in s.sites if x.kind == "call" and x.is_call_to("eval_node")]
-    ins = [x for x in s.sites if x.kind == "mcall" and x.name == "insert" and evs and any(y == evs[0].term for y in [x.args[-1]] + list(subterms(x.args[-1])))]
+    where = f"{an.file}:{an.line}"
+    evs = [x for x in s.all_sites() if x.kind == "call" and x.is_call_to("eval_node")]
+    ins = [x for x in s.all_sites() if x.kind == "mcall" and x.name == "insert" and len(x.args) == 3 and evs
+           and any(y == evs[0].term for y in [x.args[2]] + list(subterms(x.args[2])))]
     good = len(evs) == 1 and len(ins) == 1
-    why = f"{len(evs)} eval_node, {len(ins)} result inserts"
+    why = f"{len(evs)} eval_node call(s), {len(ins)} result insertion(s)"
     if good:
         ev, st = evs[0], ins[0]
-        loop = [x for x in s.sites if x.kind == "for" and x.node["id"] in ev.loops]
-        good = len(loop) == 1 and st.loops == ev.loops
-        why = "result is not stored in the iteration that computed it"
+        pieces = render.string_pieces(st.args[1])
+        idx = strip_str(pieces[1][1]) if len(pieces) == 2 and pieces[0] == "formula-" and isinstance(pieces[1], tuple) else None
+        e = comp(idx, 0) if idx is not None else None
+        good = e is not None
+        why = f"the label is {render.shape(pieces)} over {[sem.short(p[1], 40) for p in pieces if isinstance(p, tuple)]}: expected `formula-<enumerate counter>`"
         if good:
-            it = loop[0].args[0]
-            elem = ("elem", it)
-            is_enum = it[0] == "call" and it[1].endswith("::enumerate")
-            src = it[2][0] if is_enum else None
-            while src is not None and src[0] == "call" and src[1].rsplit("::", 1)[-1] in ("iter", "into_iter") and len(src[2]) == 1:
-                src = src[2][0]
-            tm, args = fmt_template(st.args[1])
-            good = is_enum and tm == ("formula-", "{}") and args == [("tproj", elem, 0)] and any(y == ("tproj", elem, 1) for y in [ev.args[0]] + list(subterms(ev.args[0])))
-            why = f"label template {tm} over {[sem.short(a, 40) for a in args]}; evaluated tree {sem.short(ev.args[0], 60)}"
+            src = terms.strip_iter_adapters(e[1])
+            is_enum = src[0] == "call" and last(src[1]) == "enumerate"
+            tree = strip_str(ev.args[0])
+            good = is_enum
+            why = f"the label index {sem.short(idx, 60)} is not the counter of an `enumerate()` loop"
             if good:
-                # the iterated list is the list of trees pushed while iterating over the input formulae in order
-                good = src is not None and src[0] == "mu"
-                pushes = [x for x in s.sites if x.kind == "mcall" and x.name == "push" and x.argnodes and place_path(x.argnodes[0]) and src is not None and src[0] == "mu"
-                          and place_path(x.argnodes[0]) == src[2]]
-                ploop = [x for x in s.sites if x.kind == "for" and pushes and x.node["id"] in pushes[0].loops]
-                good = good and len(pushes) == 1 and len(ploop) == 1
+                # zip(trees, formulae): the first source gives the trees
+                prim = src[2][0]
+                for _ in range(6):
+                    prim = terms.strip_iter_adapters(prim)
+                    if prim[0] == "call" and last(prim[1]) == "zip" and len(prim[2]) == 2:
+                        prim = prim[2][0]
+                    elif prim[0] == "call" and last(prim[1]) in ("iter", "into_iter", "clone") and len(prim[2]) == 1:
+                        prim = prim[2][0]
+                    else:
+                        break
+                good = prim[0] == "collect" and source_root(prim[1]) == formulae
+                why = (f"the enumerated list is {sem.short(prim, 120)}: not the list of trees built once per input formula, in input order "
+                       "(a reordered or filtered list makes entry i correspond to another line)")
                 if good:
-                    pit = ploop[0].args[0]
-                    base = pit
-                    while base[0] == "call" and base[1].rsplit("::", 1)[-1] in ("iter", "into_iter", "enumerate") and len(base[2]) == 1:
-                        base = base[2][0]
-                    good = base == formulae and not any(c[0] == "if" and c[2] for c in pushes[0].pc)
-                why = "the evaluated list is not the list of trees pushed once per input formula, in input order"
-    rep.check(good, "C16-R3", "analyse_formulae/labels", evs[0].where() if evs else f"{an.file}:{an.line}",
-              "results[formula-<i>] = eval(tree i), i = enumerate counter over the trees in input order", why)
-    arch = [x for x in s.sites if x.kind == "call" and x.is_call_to("build_result_archive")]
-    good = len(arch) == 1 and arch[0].args[3] == formulae and ins and arch[0].args[0][0] in ("mu", "loopvar", "mut") and terms.mentions_param(arch[0].args[2], pn[0])
-    rep.check(good, "C16-R3", "analyse_formulae/archive-args", arch[0].where() if arch else f"{an.file}:{an.line}",
-              "archive = (results map, model text of bn, the input formulae)", f"archive arguments {[sem.short(a, 50) for a in arch[0].args] if arch else None}")
+                    # the evaluated tree is the element of that list at the counter's position (elements are expressed over the input formula)
+                    good = strip_str(prim[2]) == tree and st.loops == ev.loops
+                    why = f"the evaluated tree {sem.short(tree, 80)} is not the element of the enumerated list at the counter's position"
+    rep.check(good, "C16-R3", "analyse_formulae/labels", evs[0].where() if evs else where,
+              "results[formula-<i>] = eval(tree i), i = enumerate counter over the trees built in input order", why)
+    arch = [x for x in s.all_sites() if x.kind == "call" and x.is_call_to("build_result_archive")]
+    good = len(arch) == 1 and strip_str(arch[0].args[3]) == formulae and terms.mentions_param(arch[0].args[2], pn[0])
+    if good and ins:
+        tr = effects.trace(arch[0].args[0], s)
+        loops = [x for x in tr if x[0] == "loop"]
+        others = [x for x in tr if x[0] == "op" and x[1] not in ("insert",)]
+        good = len(loops) == 1 and not others and terms.is_fresh_collection(tr[0][1]) and [o[1] for o in loops[0][3] if o[0] == "op"] == ["insert"]
+    rep.check(good, "C16-R3", "analyse_formulae/archive-args", arch[0].where() if arch else where,
+              "archive = (the map filled by exactly those insertions, the model text of the network, the input formulae)",
+              f"archive arguments {[sem.short(a, 50) for a in arch[0].args] if arch else None}")
     rep.floor("C16-R3", 2)
